@@ -60,16 +60,10 @@ theorem PTree.ind : ∀ t, P t
   | .slice l a b c rhs => h_slice l a b c rhs (PTree.ind l) (PTree.ind rhs)
 theorem PTree.indL : ∀ es : List PTree, ∀ e ∈ es, P e
   | [], _, h => by cases h
-  | x :: xs, e, h => by
-    rcases List.mem_cons.1 h with rfl | h
-    · exact PTree.ind e
-    · exact PTree.indL xs e h
+  | x :: xs, e, h => (List.mem_cons.1 h).elim (fun he => he ▸ PTree.ind x) (fun h => PTree.indL xs e h)
 theorem PTree.indKV : ∀ kvs : List (Token × PTree), ∀ kv ∈ kvs, P kv.2
   | [], _, h => by cases h
-  | (k, x) :: xs, kv, h => by
-    rcases List.mem_cons.1 h with rfl | h
-    · exact PTree.ind x
-    · exact PTree.indKV xs kv h
+  | (k, x) :: xs, kv, h => (List.mem_cons.1 h).elim (fun he => he ▸ PTree.ind x) (fun h => PTree.indKV xs kv h)
 end
 end Ind
 
@@ -186,15 +180,795 @@ theorem llevel_ge : ∀ (b : Bool) (t : PTree), wp b t = true → 2 ≤ llevel t
       have := llevel_ge b l h.1.1.1
       simp only [lvlBracket]; omega
   | _, .icur, _ => by decide
-  | _, .atom _, _ => by decide
-  | _, .paren _, _ => by decide
-  | _, .not _, _ => by decide
-  | _, .neg _ _, _ => by decide
-  | _, .pos _, _ => by decide
-  | _, .call _ _, _ => by decide
-  | _, .ref _, _ => by decide
-  | _, .letIn _ _, _ => by decide
-  | _, .multiList _, _ => by decide
-  | _, .multiHash _, _ => by decide
+  | _, .atom _, _ => by show 2 ≤ top; decide
+  | _, .paren _, _ => by show 2 ≤ top; decide
+  | _, .not _, _ => by show 2 ≤ top; decide
+  | _, .neg _ _, _ => by show 2 ≤ top; decide
+  | _, .pos _, _ => by show 2 ≤ top; decide
+  | _, .call _ _, _ => by show 2 ≤ top; decide
+  | _, .ref _, _ => by show 2 ≤ top; decide
+  | _, .letIn _ _, _ => by show 2 ≤ top; decide
+  | _, .multiList _, _ => by show 2 ≤ top; decide
+  | _, .multiHash _, _ => by show 2 ≤ top; decide
+
+
+/-! ## Completeness: the continuation-style statement -/
+
+/-- what reading a tree's tokens must achieve: `expression` in primary position, `projection` (with a right-hand
+    side present) in right-hand-side position -/
+def Goal (b : Bool) (f prec : Nat) (ts : List Token) (n : INode) (s' : PState) : Prop :=
+  match b with
+  | false => expression f prec (stOf ts) = .ok (n, s')
+  | true => projection f prec (stOf ts) = .ok (some n, s')
+
+theorem Goal.mono {b f g prec ts n s'} (h : Goal b f prec ts n s') (hfg : f ≤ g) : Goal b g prec ts n s' := by
+  cases b
+  · exact expression_mono hfg h
+  · exact projection_mono hfg h
+
+/-- **the key statement**: reading the tokens of `t` at a power below its left level reaches the operator loop with
+    `erase t` as left operand -/
+def Reach (b : Bool) (t : PTree) : Prop :=
+  ∀ prec, prec < llevel t → (b = true → prec ≤ lvlDot) → ∀ rest, Follow (rlevel t) rest → ∀ g n s',
+    exprLoop g (erase t) prec (stOf rest) = .ok (n, s') → ∃ f, Goal b f prec (flat b t ++ rest) n s'
+
+/-- a tree in primary position is an operand at every power below its left level -/
+theorem Reach.operand {t : PTree} (h : Reach false t) {p : Nat} (hp : p < llevel t) {rest : List Token}
+    (hr : Follow (min p (rlevel t)) rest) :
+    ∃ f, expression f p (stOf (flat false t ++ rest)) = .ok (erase t, stOf rest) :=
+  h p hp (fun h => by cases h) rest (hr.mono (Nat.min_le_right _ _)) 1 _ _
+    (exprLoop_stop (Nat.le_trans hr.1 (Nat.min_le_left _ _)))
+
+/-- a right-hand side is read by `projection` at every power below its left level -/
+theorem Reach.rhs {t : PTree} (h : Reach true t) {p : Nat} (hp : p < llevel t) (hp' : p ≤ lvlDot)
+    {rest : List Token} (hr : Follow (min p (rlevel t)) rest) :
+    ∃ f, projection f p (stOf (flat true t ++ rest)) = .ok (some (erase t), stOf rest) :=
+  h p hp (fun _ => hp') rest (hr.mono (Nat.min_le_right _ _)) 1 _ _
+    (exprLoop_stop (Nat.le_trans hr.1 (Nat.min_le_left _ _)))
+
+/-- a form read by `primaryExpression` -/
+theorem reach_of_prim {t : PTree}
+    (h : ∀ rest, Follow (rlevel t) rest →
+      ∃ f, primaryExpression f (stOf (flat false t ++ rest)) = .ok (erase t, stOf rest)) : Reach false t := by
+  intro prec _ _ rest hr g n s' hk
+  obtain ⟨f, hf⟩ := h rest hr
+  refine ⟨max f g + 1, ?_⟩
+  show expression _ _ _ = _
+  rw [expression_of_prim (primaryExpression_mono (Nat.le_max_left f g) hf)]
+  exact exprLoop_mono (Nat.le_max_right f g) hk
+
+/-- a form with a left operand `l`: one step of the operator loop -/
+theorem reach_of_step {b : Bool} {l t : PTree} {toks : List Token} (hl : Reach b l)
+    (hflat : flat b t = flat b l ++ toks) (hll : llevel t ≤ llevel l)
+    (hfol : ∀ rest, Follow (rlevel l) (toks ++ rest))
+    (hstep : ∀ prec, prec < llevel t → ∀ rest, Follow (rlevel t) rest → ∃ F0, ∀ F, F0 ≤ F →
+      exprLoop (F + 1) (erase l) prec (stOf (toks ++ rest)) = exprLoop F (erase t) prec (stOf rest)) :
+    Reach b t := by
+  intro prec hp hb rest hr g n s' hk
+  obtain ⟨F0, hF⟩ := hstep prec hp rest hr
+  have h1 := hF (max F0 g) (Nat.le_max_left _ _)
+  rw [exprLoop_mono (Nat.le_max_right F0 g) hk] at h1
+  obtain ⟨f, hf⟩ := hl prec (Nat.lt_of_lt_of_le hp hll) hb (toks ++ rest) (hfol rest) _ n s' h1
+  exact ⟨f, by rw [hflat, List.append_assoc]; exact hf⟩
+
+/-! ## Running the parser's primitives on `stOf` -/
+
+theorem currValue_run (s : PState) : currValue s = .ok (s.curr.value, s) := rfl
+
+theorem follow_of_prec0 {q : Nat} {t : Token} {ts : List Token} (h0 : precedence t.type = 0)
+    (hne : t.type ≠ .openParen) : Follow q (t :: ts) :=
+  ⟨by show precedence t.type ≤ q; omega, hne⟩
+
+theorem follow_cons_of {q : Nat} {t : Token} {ts : List Token} (h0 : precedence t.type ≤ q)
+    (hne : t.type ≠ .openParen) : Follow q (t :: ts) := ⟨h0, hne⟩
+
+/-! ## Primary forms -/
+
+theorem prim_atom {t : Token} {n : INode} (h : atomNode t = some n) (rest : List Token)
+    (hr : (stOf rest).curr.type ≠ .openParen) :
+    primaryExpression 1 (stOf (t :: rest)) = .ok (n, stOf rest) := by
+  rw [primaryExpression.eq_2, bind_ok (get_run _)]
+  unfold atomNode at h
+  split at h
+  · rename_i ht
+    cases h
+    have hn : ((stOf (t :: rest)).next.type == TokenType.openParen) = false := by
+      rw [stOf_next_eq]; simpa using hr
+    simp only [stOf_curr, ht, hn, Bool.false_eq_true, if_false]
+    rw [bind_ok (advance_stOf _ _)]; rfl
+  · rename_i ht
+    simp only [Option.map_eq_some_iff] at h
+    obtain ⟨k, hk, rfl⟩ := h
+    simp only [stOf_curr, ht, hk]
+    rw [bind_ok (advance_stOf _ _)]; rfl
+  · rename_i ht
+    cases h
+    simp only [stOf_curr, ht]
+    rw [bind_ok (advance_stOf _ _)]; rfl
+  · rename_i ht
+    simp only [Option.map_eq_some_iff] at h
+    obtain ⟨k, hk, rfl⟩ := h
+    simp only [stOf_curr, ht, hk]
+    rw [bind_ok (advance_stOf _ _)]; rfl
+  · rename_i ht
+    cases h
+    simp only [stOf_curr, ht]
+    rw [bind_ok (advance_stOf _ _)]; rfl
+  · rename_i ht
+    cases h
+    simp only [stOf_curr, ht]
+    rw [bind_ok (advance_stOf _ _)]; rfl
+  · rename_i ht
+    cases h
+    simp only [stOf_curr, ht]
+    rw [bind_ok (advance_stOf _ _)]; rfl
+  · cases h
+
+theorem reach_atom {t : Token} (h : wp false (.atom t) = true) : Reach false (.atom t) := by
+  apply reach_of_prim
+  intro rest hr
+  simp only [wp, Bool.not_false, Bool.true_and, Option.isSome_iff_exists] at h
+  obtain ⟨n, hn⟩ := h
+  exact ⟨1, by simp only [flat, erase, hn, Option.getD_some, List.singleton_append]; exact prim_atom hn rest hr.2⟩
+
+theorem follow_rparen (q : Nat) (rest : List Token) : Follow q (tRParen :: rest) :=
+  follow_of_prec0 rfl (by decide)
+
+theorem reach_paren {t : PTree} (ht : Reach false t) (h : wp false (.paren t) = true) : Reach false (.paren t) := by
+  apply reach_of_prim
+  intro rest _
+  simp only [wp, Bool.not_false, Bool.true_and] at h
+  obtain ⟨f, hf⟩ := ht.operand (p := 1) (by have := llevel_ge _ _ h; omega) (rest := tRParen :: rest)
+    (follow_rparen _ _)
+  refine ⟨f + 1, ?_⟩
+  rw [primaryExpression.eq_2, bind_ok (get_run _)]
+  simp only [flat, erase, List.cons_append, List.append_assoc, List.nil_append, stOf_curr, tLParen]
+  rw [bind_ok (advance_stOf _ _), bind_ok hf, bind_ok (currType_run _)]
+  simp only [stOf_curr, tRParen, bne_self_eq_false, Bool.false_eq_true, if_false]
+  rw [bind_ok (advance_stOf _ _)]
+  rfl
+
+theorem reach_not {t : PTree} (ht : Reach false t) (h : wp false (.not t) = true) : Reach false (.not t) := by
+  apply reach_of_prim
+  intro rest hr
+  simp only [wp, Bool.not_false, Bool.true_and, Bool.and_eq_true, decide_eq_true_eq] at h
+  obtain ⟨f, hf⟩ := ht.operand (p := precedence .not) h.2 (rest := rest) hr
+  refine ⟨f + 1, ?_⟩
+  rw [primaryExpression.eq_2, bind_ok (get_run _)]
+  simp only [flat, erase, List.cons_append, stOf_curr, tNot]
+  rw [bind_ok (advance_stOf _ _), bind_ok hf]
+  rfl
+
+theorem reach_neg {tok : Token} {t : PTree} (ht : Reach false t) (h : wp false (.neg tok t) = true) :
+    Reach false (.neg tok t) := by
+  apply reach_of_prim
+  intro rest hr
+  simp only [wp, Bool.not_false, Bool.true_and, Bool.and_eq_true, decide_eq_true_eq, beq_iff_eq] at h
+  obtain ⟨f, hf⟩ := ht.operand (p := precedence .multiply) h.2 (rest := rest) hr
+  refine ⟨f + 1, ?_⟩
+  rw [primaryExpression.eq_2, bind_ok (get_run _)]
+  simp only [flat, erase, List.cons_append, stOf_curr, h.1.1]
+  rw [bind_ok (advance_stOf _ _), bind_ok hf]
+  rfl
+
+theorem reach_pos {t : PTree} (ht : Reach false t) (h : wp false (.pos t) = true) : Reach false (.pos t) := by
+  apply reach_of_prim
+  intro rest hr
+  simp only [wp, Bool.not_false, Bool.true_and, Bool.and_eq_true, decide_eq_true_eq] at h
+  obtain ⟨f, hf⟩ := ht.operand (p := precedence .multiply) h.2 (rest := rest) hr
+  refine ⟨f + 1, ?_⟩
+  rw [primaryExpression.eq_2, bind_ok (get_run _)]
+  simp only [flat, erase, List.cons_append, stOf_curr, tPlus]
+  rw [bind_ok (advance_stOf _ _), bind_ok hf]
+  rfl
+
+/-! ## Evaluating the parser on token lists -/
+
+set_option linter.unusedSimpArgs false
+
+theorem fail_run {α} (e : PErr) (s : PState) : (fail e : PM α) s = .error e := rfl
+theorem ite_run {α} (c : Prop) [Decidable c] (a b : PM α) (s : PState) :
+    (if c then a else b) s = if c then a s else b s := by split <;> rfl
+
+theorem tLParen_type : tLParen.type = .openParen := rfl
+theorem tRParen_type : tRParen.type = .closeParen := rfl
+theorem tLBracket_type : tLBracket.type = .openSqBrace := rfl
+theorem tRBracket_type : tRBracket.type = .closeSqBrace := rfl
+theorem tLBrace_type : tLBrace.type = .openBrace := rfl
+theorem tRBrace_type : tRBrace.type = .closeBrace := rfl
+theorem tComma_type : tComma.type = .comma := rfl
+theorem tColon_type : tColon.type = .colon := rfl
+theorem tDot_type : tDot.type = .dot := rfl
+theorem tDotStar_type : tDotStar.type = .objectWildcard := rfl
+theorem tStar_type : tStar.type = .asterisk := rfl
+theorem tArrayStar_type : tArrayStar.type = .arrayWildcard := rfl
+theorem tFlatten_type : tFlatten.type = .flatten := rfl
+theorem tFilter_type : tFilter.type = .filter := rfl
+theorem tNot_type : tNot.type = .not := rfl
+theorem tPlus_type : tPlus.type = .add := rfl
+theorem tAmp_type : tAmp.type = .expression := rfl
+theorem tLet_type : tLet.type = .«let» := rfl
+theorem tIn_type : tIn.type = .«in» := rfl
+theorem tAssign_type : tAssign.type = .assign := rfl
+
+/-- evaluate a `do` block of the parser on a state of the form `stOf (t :: …)` -/
+macro "pm_eval" "[" ts:Lean.Parser.Tactic.simpLemma,* "]" : tactic => `(tactic|
+  simp only [bind_run, ite_run, currType_run, nextType_run, currValue_run, get_run, pure_run, fail_run, stOf_curr,
+    stOf_next_eq, advance2_stOf, advance_stOf, if_true, if_false, beq_iff_eq, bne_iff_ne, ne_eq, reduceCtorEq,
+    not_true_eq_false, not_false_eq_true, Bool.not_true, Bool.not_false, Bool.false_eq_true, beq_self_eq_true,
+    List.nil_append, List.cons_append, List.append_assoc,
+    tLParen_type, tRParen_type, tLBracket_type, tRBracket_type, tLBrace_type, tRBrace_type, tComma_type, tColon_type, tDot_type, tDotStar_type, tStar_type, tArrayStar_type, tFlatten_type, tFilter_type, tNot_type, tPlus_type, tAmp_type, tLet_type, tIn_type, tAssign_type, $ts,*])
+
+/-- … in a hypothesis -/
+macro "pm_at" h:ident "[" ts:Lean.Parser.Tactic.simpLemma,* "]" : tactic => `(tactic|
+  simp only [bind_run, ite_run, currType_run, nextType_run, currValue_run, get_run, pure_run, fail_run, stOf_curr,
+    stOf_next_eq, advance2_stOf, advance_stOf, if_true, if_false, beq_iff_eq, bne_iff_ne, ne_eq, reduceCtorEq,
+    not_true_eq_false, not_false_eq_true, Bool.not_true, Bool.not_false, Bool.false_eq_true, beq_self_eq_true,
+    List.nil_append, List.cons_append, List.append_assoc,
+    tLParen_type, tRParen_type, tLBracket_type, tRBracket_type, tLBrace_type, tRBrace_type, tComma_type, tColon_type, tDot_type, tDotStar_type, tStar_type, tArrayStar_type, tFlatten_type, tFilter_type, tNot_type, tPlus_type, tAmp_type, tLet_type, tIn_type, tAssign_type, $ts,*] at $h:ident)
+
+/-- … using all hypotheses -/
+macro "pm_eval_star" "[" ts:Lean.Parser.Tactic.simpLemma,* "]" : tactic => `(tactic|
+  simp only [bind_run, ite_run, currType_run, nextType_run, currValue_run, get_run, pure_run, fail_run, stOf_curr,
+    stOf_next_eq, advance2_stOf, advance_stOf, if_true, if_false, beq_iff_eq, bne_iff_ne, ne_eq, reduceCtorEq,
+    not_true_eq_false, not_false_eq_true, Bool.not_true, Bool.not_false, Bool.false_eq_true, beq_self_eq_true,
+    List.nil_append, List.cons_append, List.append_assoc,
+    tLParen_type, tRParen_type, tLBracket_type, tRBracket_type, tLBrace_type, tRBrace_type, tComma_type, tColon_type, tDot_type, tDotStar_type, tStar_type, tArrayStar_type, tFlatten_type, tFilter_type, tNot_type, tPlus_type, tAmp_type, tLet_type, tIn_type, tAssign_type, $ts,*, *])
+
+theorem indexP_index (child : Option INode) {n : Token} {i : Int} (hn : n.type = .integerLiteral)
+    (hi : parseInt64 n.value = some i) (rest : List Token) :
+    indexP child (stOf (n :: tRBracket :: rest)) = .ok ((indexNode child i, false), stOf rest) := by
+  unfold indexP
+  pm_eval [hn, hi]
+  cases child <;> simp only [indexNode, pure_run]
+  split <;> rfl
+
+theorem loop_bin {o : Token} {lvl : Nat} (hl : binLevel o.type = some lvl) {p F : Nat} (hp : p < lvl)
+    {l r : INode} {ts1 ts2 : List Token} (hr : expression F lvl (stOf ts1) = .ok (r, stOf ts2)) :
+    exprLoop (F + 1) l p (stOf (o :: ts1)) = exprLoop F (binNode o.type l r) p (stOf ts2) := by
+  have hprec := binLevel_precedence hl
+  rw [exprLoop_bin (s := stOf (o :: ts1)) (binLevel_mkBin hl) (by simpa [hprec] using hp),
+    bind_ok (advance_stOf _ _)]
+  simp only [stOf_curr, hprec]
+  rw [bind_ok hr]
+
+theorem loop_dotId {p F : Nat} (hp : p < lvlDot) {l r : INode} {t : Token}
+    (ht : t.type = .unquotedIdentifier ∨ t.type = .quotedIdentifier) {ts1 ts2 : List Token}
+    (hr : expression F lvlDot (stOf (t :: ts1)) = .ok (r, stOf ts2)) :
+    exprLoop (F + 1) l p (stOf (tDot :: t :: ts1)) = exprLoop F (.pipe l r) p (stOf ts2) := by
+  rw [exprLoop_dot_ident (s := stOf (tDot :: t :: ts1)) rfl (by simpa using ht) hp, bind_ok (advance_stOf _ _)]
+  show (expression F lvlDot >>= _) _ = _
+  rw [bind_ok hr]
+
+theorem loop_dotStarList {p F : Nat} (hp : p < lvlDot) {l : INode} {rest : List Token} :
+    exprLoop (F + 1) l p (stOf (tDot :: tArrayStar :: rest)) =
+      exprLoop F (.selectArraySingle l .objectValuesCurrent) p (stOf rest) := by
+  have hn : ¬ precedence TokenType.dot ≤ p := by simp only [precedence, lvlDot] at *; omega
+  rw [exprLoop.eq_2]
+  pm_eval [hn, binOpOf]
+
+theorem loop_index {p F : Nat} (hp : p < lvlBracket) {l : INode} {n : Token} {i : Int} (hn' : n.type = .integerLiteral)
+    (hi : parseInt64 n.value = some i) {rest : List Token} :
+    exprLoop (F + 1) l p (stOf (tLBracket :: n :: tRBracket :: rest)) = exprLoop F (.index l i) p (stOf rest) := by
+  have hn : ¬ precedence TokenType.openSqBrace ≤ p := by simp only [precedence, lvlBracket] at *; omega
+  rw [exprLoop.eq_2]
+  pm_eval [hn, binOpOf]
+  rw [indexP_index (some l) hn' hi rest]
+  rfl
+
+
+theorem isIntTok_iff {t : Token} :
+    isIntTok t = true ↔ t.type = .integerLiteral ∧ ∃ i, parseInt64 t.value = some i := by
+  simp [isIntTok, intOf, Option.isSome_iff_exists]
+
+theorem indexP_slice (child : Option INode) {a b : Option Token} {c : Option (Option Token)}
+    (h : sliceOK a b c = true) (rest : List Token) :
+    indexP child (stOf (sliceToks a b c ++ tRBracket :: rest)) =
+      .ok ((sliceNode child (a.bind intOf) (b.bind intOf) (c.bind fun s => s.bind intOf), true), stOf rest) := by
+  unfold sliceOK at h
+  simp only [Bool.and_eq_true] at h
+  obtain ⟨⟨ha, hb⟩, hc⟩ := h
+  rcases a with _ | a <;> rcases b with _ | b <;> rcases c with _ | _ | c
+  all_goals simp only [optIntTok, isIntTok_iff, Bool.and_eq_true, bne_iff_ne, ne_eq] at ha hb hc
+  all_goals try obtain ⟨ha, ia, hia⟩ := ha
+  all_goals try obtain ⟨hb, ib, hib⟩ := hb
+  all_goals try obtain ⟨⟨hc, ic, hic⟩, hc0⟩ := hc
+  all_goals unfold indexP
+  all_goals pm_eval_star [sliceToks, Option.toList, List.append_nil]
+  all_goals simp only [intOf, Option.bind_some, Option.bind_none, Option.some.injEq, *] at *
+  all_goals cases child <;> simp only [sliceNode, Option.getD_some, Option.getD_none, indexP.MaxIntP,
+    indexP.MinIntP, maxInt, minInt, pure_run]
+  all_goals (try split) <;> (try split) <;> (try split) <;> (try split) <;> (try split) <;>
+    first | rfl | omega | (exfalso; simp_all; done)
+
+theorem loop_slice {p F : Nat} (hp : p < lvlBracket) {l : INode} {a b : Option Token} {c : Option (Option Token)}
+    (h : sliceOK a b c = true) {ts1 ts2 : List Token} {o : Option INode}
+    (hr : projection F projectionPrecedence (stOf ts1) = .ok (o, stOf ts2)) :
+    exprLoop (F + 1) l p (stOf (tLBracket :: (sliceToks a b c ++ tRBracket :: ts1))) =
+      exprLoop F (.projectArray (sliceNode (some l) (a.bind intOf) (b.bind intOf) (c.bind fun s => s.bind intOf))
+        (o.getD .current)) p (stOf ts2) := by
+  have hn : ¬ precedence TokenType.openSqBrace ≤ p := by simp only [precedence, lvlBracket] at *; omega
+  rw [exprLoop.eq_2]
+  pm_eval [hn, binOpOf]
+  rw [indexP_slice (some l) h ts1]
+  pm_eval [hr]
+
+theorem loop_dotList {p F : Nat} (hp : p < lvlDot) {l n : INode} {ts1 ts2 : List Token}
+    (hr : selectArray F (some l) (stOf ts1) = .ok (n, stOf ts2)) :
+    exprLoop (F + 1) l p (stOf (tDot :: tLBracket :: ts1)) = exprLoop F n p (stOf ts2) := by
+  have hn : ¬ precedence TokenType.dot ≤ p := by simp only [precedence, lvlDot] at *; omega
+  rw [exprLoop.eq_2]
+  pm_eval [hn, binOpOf, hr]
+
+theorem loop_dotHash {p F : Nat} (hp : p < lvlDot) {l n : INode} {ts1 ts2 : List Token}
+    (hr : selectObject F (some l) (stOf ts1) = .ok (n, stOf ts2)) :
+    exprLoop (F + 1) l p (stOf (tDot :: tLBrace :: ts1)) = exprLoop F n p (stOf ts2) := by
+  have hn : ¬ precedence TokenType.dot ≤ p := by simp only [precedence, lvlDot] at *; omega
+  rw [exprLoop.eq_2]
+  pm_eval [hn, binOpOf, hr]
+
+theorem loop_star {p F : Nat} (hp : p < lvlBracket) {l : INode} {ts1 ts2 : List Token} {o : Option INode}
+    (hr : projection F projectionPrecedence (stOf ts1) = .ok (o, stOf ts2)) :
+    exprLoop (F + 1) l p (stOf (tArrayStar :: ts1)) = exprLoop F (starNode (some l) o) p (stOf ts2) := by
+  have hn : ¬ precedence TokenType.arrayWildcard ≤ p := by simp only [precedence, lvlBracket] at *; omega
+  rw [exprLoop.eq_2]
+  pm_eval [hn, binOpOf, hr]
+  cases o <;> rfl
+
+theorem loop_ostar {p F : Nat} (hp : p < lvlDot) {l : INode} {ts1 ts2 : List Token} {o : Option INode}
+    (hr : projection F projectionPrecedence (stOf ts1) = .ok (o, stOf ts2)) :
+    exprLoop (F + 1) l p (stOf (tDotStar :: ts1)) = exprLoop F (ostarNode (some l) o) p (stOf ts2) := by
+  have hn : ¬ precedence TokenType.objectWildcard ≤ p := by simp only [precedence, lvlDot] at *; omega
+  rw [exprLoop.eq_2]
+  pm_eval [hn, binOpOf, hr]
+  cases o <;> rfl
+
+theorem loop_flat {p F : Nat} (hp : p < lvlFlatten) {l : INode} {ts1 ts2 : List Token} {o : Option INode}
+    (hr : projection F projectionPrecedence (stOf ts1) = .ok (o, stOf ts2)) :
+    exprLoop (F + 1) l p (stOf (tFlatten :: ts1)) = exprLoop F (flatNode (some l) o) p (stOf ts2) := by
+  have hn : ¬ precedence TokenType.flatten ≤ p := by simp only [precedence, lvlFlatten] at *; omega
+  rw [exprLoop.eq_2]
+  pm_eval [hn, binOpOf, hr]
+  cases o <;> rfl
+
+theorem loop_filt {p F : Nat} (hp : p < lvlFilter) {l c : INode} {ts1 ts2 ts3 : List Token} {o : Option INode}
+    (hc : filterP F (stOf ts1) = .ok (c, stOf ts2))
+    (hr : projection F projectionPrecedence (stOf ts2) = .ok (o, stOf ts3)) :
+    exprLoop (F + 1) l p (stOf (tFilter :: ts1)) = exprLoop F (filtNode (some l) c o) p (stOf ts3) := by
+  have hn : ¬ precedence TokenType.filter ≤ p := by simp only [precedence, lvlFilter] at *; omega
+  rw [exprLoop.eq_2]
+  pm_eval [hn, binOpOf, hc, hr]
+  cases o <;> rfl
+
+theorem filterP_run {F : Nat} {c : INode} {ts1 ts2 : List Token}
+    (hc : expression F 1 (stOf ts1) = .ok (c, stOf (tRBracket :: ts2))) :
+    filterP (F + 1) (stOf ts1) = .ok (c, stOf ts2) := by
+  rw [filterP.eq_2]
+  pm_eval [hc]
+
+
+/-! ## Sequences -/
+
+theorem follow_prec0 {q : Nat} {t : Token} (ts : List Token) (h0 : precedence t.type = 0 := by rfl)
+    (hne : t.type ≠ .openParen := by decide) : Follow q (t :: ts) := follow_of_prec0 h0 hne
+
+/-- an element of a list, a member, an argument, a binding: read at power 1, followed by a closing token or comma -/
+theorem Reach.elem {e : PTree} (h : Reach false e) (hw : wp false e = true) {t : Token} (ts : List Token)
+    (h0 : precedence t.type = 0) (hne : t.type ≠ .openParen) :
+    ∃ f, expression f 1 (stOf (flat false e ++ t :: ts)) = .ok (erase e, stOf (t :: ts)) :=
+  h.operand (by have := llevel_ge _ _ hw; omega) (follow_of_prec0 h0 hne)
+
+theorem flatSep_cons2 (e e' : PTree) (es : List PTree) :
+    flatSep (e :: e' :: es) = flat false e ++ tComma :: flatSep (e' :: es) := by
+  simp only [flatSep]
+
+theorem listNode_snoc (child : Option INode) (acc : List INode) (x : INode) :
+    listNode child (acc ++ [x]) =
+      if acc.isEmpty then (match child with | none => .selectArraySingleCurrent x | some c => .selectArraySingle c x)
+      else (match child with | none => .selectArrayCurrent (acc ++ [x]) | some c => .selectArray c (acc ++ [x])) := by
+  rcases acc with _ | ⟨a, _ | ⟨b, acc⟩⟩ <;> cases child <;> rfl
+
+theorem sarrl_complete (child : Option INode) (rest : List Token) :
+    ∀ (es : List PTree), es ≠ [] → (∀ e ∈ es, Reach false e) → (∀ e ∈ es, wp false e = true) → ∀ acc,
+      ∃ f, selectArrayLoop f child acc (stOf (flatSep es ++ tRBracket :: rest)) =
+        .ok (listNode child (acc ++ eraseL es), stOf rest)
+  | [], h, _, _, _ => absurd rfl h
+  | [e], _, hR, hw, acc => by
+    obtain ⟨f, hf⟩ := (hR e (by simp)).elem (hw e (by simp)) (t := tRBracket) rest rfl (by decide)
+    refine ⟨f + 1, ?_⟩
+    rw [selectArrayLoop.eq_2]
+    pm_eval [flatSep, eraseL, hf, listNode_snoc]
+    split <;> rfl
+  | e :: e' :: es, _, hR, hw, acc => by
+    obtain ⟨f, hf⟩ := (hR e (by simp)).elem (hw e (by simp)) (t := tComma) (flatSep (e' :: es) ++ tRBracket :: rest)
+      rfl (by decide)
+    obtain ⟨g, hg⟩ := sarrl_complete child rest (e' :: es) (by simp) (fun x hx => hR x (by simp [hx]))
+      (fun x hx => hw x (by simp [hx])) (acc ++ [erase e])
+    refine ⟨max f g + 1, ?_⟩
+    rw [selectArrayLoop.eq_2, flatSep_cons2]
+    have hf' := expression_mono (Nat.le_max_left f g) hf
+    have hg' := ((mono_le (Nat.le_max_right f g)).sarrl _ _).ok hg
+    pm_eval [hf', hg']
+    simp only [eraseL, List.append_assoc, List.singleton_append]
+
+theorem sarr_complete (child : Option INode) (rest : List Token) (es : List PTree) (hne : es ≠ [])
+    (hR : ∀ e ∈ es, Reach false e) (hw : ∀ e ∈ es, wp false e = true) :
+    ∃ f, selectArray f child (stOf (flatSep es ++ tRBracket :: rest)) = .ok (listNode child (eraseL es), stOf rest) := by
+  obtain ⟨f, hf⟩ := sarrl_complete child rest es hne hR hw []
+  exact ⟨f + 1, by rw [selectArray.eq_2]; exact hf⟩
+
+
+theorem flatKVs_cons2 (sep : Token) (k : Token) (e : PTree) (kv : Token × PTree) (kvs : List (Token × PTree)) :
+    flatKVs sep ((k, e) :: kv :: kvs) = k :: sep :: flat false e ++ tComma :: flatKVs sep (kv :: kvs) := by
+  simp only [flatKVs]
+
+theorem assocInsert_ne_nil (k : Bytes) (v : INode) (l : List (Bytes × INode)) : assocInsert k v l ≠ [] := by
+  cases l with
+  | nil => simp [assocInsert]
+  | cons a l =>
+    obtain ⟨k', v'⟩ := a
+    simp only [assocInsert]
+    split
+    · simp
+    · split <;> simp
+
+theorem assocOf_snoc (ps : List (Bytes × INode)) (k : Bytes) (v : INode) :
+    assocOf (ps ++ [(k, v)]) = assocInsert k v (assocOf ps) := by
+  simp [assocOf, List.foldl_append]
+
+theorem assocOf_isEmpty (ps : List (Bytes × INode)) : (assocOf ps).isEmpty = ps.isEmpty := by
+  rcases List.eq_nil_or_concat ps with rfl | ⟨l, a, rfl⟩
+  · rfl
+  · obtain ⟨k, v⟩ := a
+    simp only [List.concat_eq_append]
+    rw [assocOf_snoc]
+    have := assocInsert_ne_nil k v (assocOf l)
+    cases h : assocInsert k v (assocOf l) with
+    | nil => exact absurd h this
+    | cons _ _ => simp
+
+theorem hashNode_snoc (child : Option INode) (ps : List (Bytes × INode)) (k : Bytes) (x : INode) :
+    hashNode child (ps ++ [(k, x)]) =
+      if (assocOf ps).isEmpty then
+        (match child with | none => .selectObjectSingleCurrent k x | some c => .selectObjectSingle c k x)
+      else (match child with
+        | none => .selectObjectCurrent (assocInsert k x (assocOf ps))
+        | some c => .selectObject c (assocInsert k x (assocOf ps))) := by
+  rw [assocOf_isEmpty, ← assocOf_snoc]
+  rcases ps with _ | ⟨a, _ | ⟨b, ps⟩⟩ <;> cases child <;> rfl
+
+theorem keyOK_cases {k : Token} (h : keyOK k = true) :
+    k.type = .unquotedIdentifier ∨ (k.type = .quotedIdentifier ∧ ∃ v, parseQuotedIdentifier k.value = some v) := by
+  simpa [keyOK, Option.isSome_iff_exists] using h
+
+theorem sobjl_complete (child : Option INode) (rest : List Token) :
+    ∀ (kvs : List (Token × PTree)), kvs ≠ [] → (∀ kv ∈ kvs, Reach false kv.2) →
+      (∀ kv ∈ kvs, keyOK kv.1 = true ∧ wp false kv.2 = true) → ∀ ps,
+      ∃ f, selectObjectLoop f child (assocOf ps) (stOf (flatKVs tColon kvs ++ tRBrace :: rest)) =
+        .ok (hashNode child (ps ++ eraseKVs keyOf kvs), stOf rest)
+  | [], h, _, _, _ => absurd rfl h
+  | [(k, e)], _, hR, hw, ps => by
+    obtain ⟨f, hf⟩ := (hR (k, e) (by simp)).elem (hw (k, e) (by simp)).2 (t := tRBrace) rest rfl (by decide)
+    refine ⟨f + 1, ?_⟩
+    rw [selectObjectLoop.eq_2]
+    have hkey : keyOK k = true := (hw (k, e) (by simp)).1
+    rcases keyOK_cases hkey with hk | ⟨hk, v, hv⟩
+    · pm_eval [flatKVs, eraseKVs, hf, hashNode_snoc, hk, keyOf]
+      split <;> rfl
+    · pm_eval [flatKVs, eraseKVs, hf, hashNode_snoc, hk, hv, keyOf, Option.getD_some]
+      split <;> rfl
+  | (k, e) :: kv :: kvs, _, hR, hw, ps => by
+    obtain ⟨f, hf⟩ := (hR (k, e) (by simp)).elem (hw (k, e) (by simp)).2 (t := tComma)
+      (flatKVs tColon (kv :: kvs) ++ tRBrace :: rest) rfl (by decide)
+    obtain ⟨g, hg⟩ := sobjl_complete child rest (kv :: kvs) (by simp) (fun x hx => hR x (by simp [hx]))
+      (fun x hx => hw x (by simp [hx])) (ps ++ [(keyOf k, erase e)])
+    refine ⟨max f g + 1, ?_⟩
+    rw [selectObjectLoop.eq_2, flatKVs_cons2]
+    have hf' := expression_mono (Nat.le_max_left f g) hf
+    have hg' := ((mono_le (Nat.le_max_right f g)).sobjl _ _).ok hg
+    rw [assocOf_snoc] at hg'
+    have hkey : keyOK k = true := (hw (k, e) (by simp)).1
+    rcases keyOK_cases hkey with hk | ⟨hk, v, hv⟩
+    · simp only [keyOf, hk] at hg'
+      pm_eval [hf', hg', hk]
+      simp only [eraseKVs, keyOf, hk, List.append_assoc, List.singleton_append]
+    · simp only [keyOf, hk, hv, Option.getD_some] at hg'
+      pm_eval [hf', hg', hk, hv]
+      simp only [eraseKVs, keyOf, hk, hv, Option.getD_some, List.append_assoc, List.singleton_append]
+
+theorem sobj_complete (child : Option INode) (rest : List Token) (kvs : List (Token × PTree)) (hne : kvs ≠ [])
+    (hR : ∀ kv ∈ kvs, Reach false kv.2) (hw : ∀ kv ∈ kvs, keyOK kv.1 = true ∧ wp false kv.2 = true) :
+    ∃ f, selectObject f child (stOf (flatKVs tColon kvs ++ tRBrace :: rest)) =
+      .ok (hashNode child (eraseKVs keyOf kvs), stOf rest) := by
+  obtain ⟨f, hf⟩ := sobjl_complete child rest kvs hne hR hw []
+  exact ⟨f + 1, by rw [selectObject.eq_2]; exact hf⟩
+
+
+theorem fnArgs_complete (mn mx : Nat) (rest : List Token) :
+    ∀ (es : List PTree), es ≠ [] → (∀ e ∈ es, Reach false e) → (∀ e ∈ es, wp false e = true) → ∀ acc : List INode,
+      mn ≤ acc.length + es.length → acc.length + es.length ≤ mx →
+      ∃ f, fnArgs f mn mx acc (stOf (flatSep es ++ tRParen :: rest)) = .ok (acc ++ eraseL es, stOf rest)
+  | [], h, _, _, _, _, _ => absurd rfl h
+  | [e], _, hR, hw, acc, h1, h2 => by
+    obtain ⟨f, hf⟩ := (hR e (by simp)).elem (hw e (by simp)) (t := tRParen) rest rfl (by decide)
+    refine ⟨f + 1, ?_⟩
+    rw [fnArgs.eq_2]
+    simp only [List.length_singleton] at h1 h2
+    have h1' : ¬ acc.length + 1 < mn := by omega
+    pm_eval [flatSep, eraseL, hf, List.length_append, List.length_singleton, h1']
+    split <;> rfl
+  | e :: e' :: es, _, hR, hw, acc, h1, h2 => by
+    obtain ⟨f, hf⟩ := (hR e (by simp)).elem (hw e (by simp)) (t := tComma) (flatSep (e' :: es) ++ tRParen :: rest)
+      rfl (by decide)
+    simp only [List.length_cons] at h1 h2
+    obtain ⟨g, hg⟩ := fnArgs_complete mn mx rest (e' :: es) (by simp) (fun x hx => hR x (by simp [hx]))
+      (fun x hx => hw x (by simp [hx])) (acc ++ [erase e])
+      (by simp only [List.length_append, List.length_cons, List.length_nil]; omega)
+      (by simp only [List.length_append, List.length_cons, List.length_nil]; omega)
+    refine ⟨max f g + 1, ?_⟩
+    rw [fnArgs.eq_2, flatSep_cons2]
+    have hf' := expression_mono (Nat.le_max_left f g) hf
+    have hg' := ((mono_le (Nat.le_max_right f g)).args _ _ _).ok hg
+    have h3 : acc.length + 1 < mx := by omega
+    pm_eval [hf', hg', List.length_append, List.length_singleton, h3]
+    split <;> simp only [eraseL, List.append_assoc, List.singleton_append]
+
+theorem fnVarArgs_complete (rest : List Token) :
+    ∀ (es : List PTree), es ≠ [] → (∀ e ∈ es, Reach false e) → (∀ e ∈ es, wp false e = true) → ∀ acc : List INode,
+      ∃ f, fnVarArgs f acc (stOf (flatSep es ++ tRParen :: rest)) = .ok (acc ++ eraseL es, stOf rest)
+  | [], h, _, _, _ => absurd rfl h
+  | [e], _, hR, hw, acc => by
+    obtain ⟨f, hf⟩ := (hR e (by simp)).elem (hw e (by simp)) (t := tRParen) rest rfl (by decide)
+    refine ⟨f + 1, ?_⟩
+    rw [fnVarArgs.eq_2]
+    pm_eval [flatSep, eraseL, hf]
+  | e :: e' :: es, _, hR, hw, acc => by
+    obtain ⟨f, hf⟩ := (hR e (by simp)).elem (hw e (by simp)) (t := tComma) (flatSep (e' :: es) ++ tRParen :: rest)
+      rfl (by decide)
+    obtain ⟨g, hg⟩ := fnVarArgs_complete rest (e' :: es) (by simp) (fun x hx => hR x (by simp [hx]))
+      (fun x hx => hw x (by simp [hx])) (acc ++ [erase e])
+    refine ⟨max f g + 1, ?_⟩
+    rw [fnVarArgs.eq_2, flatSep_cons2]
+    have hf' := expression_mono (Nat.le_max_left f g) hf
+    have hg' := ((mono_le (Nat.le_max_right f g)).vargs _).ok hg
+    pm_eval [hf', hg']
+    simp only [eraseL, List.append_assoc, List.singleton_append]
+
+
+theorem expression_ok_ne_rparen {f p : Nat} {s : PState} {r} (h : expression f p s = .ok r) :
+    s.curr.type ≠ .closeParen := by
+  intro hc
+  cases f with
+  | zero => rw [expression.eq_1] at h; cases h
+  | succ f =>
+    rw [expression_succ_run] at h
+    cases f with
+    | zero => rw [primaryExpression.eq_1] at h; cases h
+    | succ f =>
+      rw [primaryExpression.eq_2, bind_ok (get_run _)] at h
+      simp only [hc] at h
+      cases h
+
+theorem function_fixed {F mn mx : Nat} {mk} {name : Token} {ts1 ts2 : List Token} {args : List INode}
+    (hl : lookupBuiltin name.value = some (.fixed mn mx mk)) (hne : (stOf ts1).curr.type ≠ .closeParen)
+    (ha : fnArgs F mn mx [] (stOf ts1) = .ok (args, stOf ts2)) :
+    function (F + 1) (stOf (name :: tLParen :: ts1)) = .ok (mk args, stOf ts2) := by
+  rw [function.eq_2]
+  pm_eval [hl, hne, ha]
+
+theorem function_varArg {F : Nat} {mk} {name : Token} {ts1 ts2 : List Token} {args : List INode}
+    (hl : lookupBuiltin name.value = some (.varArg mk)) (hne : (stOf ts1).curr.type ≠ .closeParen)
+    (ha : fnVarArgs F [] (stOf ts1) = .ok (args, stOf ts2)) :
+    function (F + 1) (stOf (name :: tLParen :: ts1)) = .ok (mk args, stOf ts2) := by
+  rw [function.eq_2]
+  pm_eval [hl, hne, ha]
+
+theorem function_expArg {F : Nat} {mk} {name : Token} {ts1 ts2 ts3 : List Token} {a e : INode}
+    (hl : lookupBuiltin name.value = some (.expArg mk))
+    (ha : expression F 1 (stOf ts1) = .ok (a, stOf (tComma :: tAmp :: ts2)))
+    (he : expression F 1 (stOf ts2) = .ok (e, stOf (tRParen :: ts3))) :
+    function (F + 1) (stOf (name :: tLParen :: ts1)) = .ok (mk a e, stOf ts3) := by
+  rw [function.eq_2]
+  have hne := expression_ok_ne_rparen ha
+  pm_eval [hl, hne, ha, he]
+
+theorem function_mapArg {F : Nat} {mk} {name : Token} {ts1 ts2 ts3 : List Token} {a e : INode}
+    (hl : lookupBuiltin name.value = some (.mapArg mk))
+    (he : expression F 1 (stOf ts1) = .ok (e, stOf (tComma :: ts2)))
+    (ha : expression F 1 (stOf ts2) = .ok (a, stOf (tRParen :: ts3))) :
+    function (F + 1) (stOf (name :: tLParen :: tAmp :: ts1)) = .ok (mk e a, stOf ts3) := by
+  rw [function.eq_2]
+  pm_eval [hl, he, ha]
+
+theorem prim_function {F : Nat} {name : Token} (hn : name.type = .unquotedIdentifier) {ts : List Token} :
+    primaryExpression (F + 1) (stOf (name :: tLParen :: ts)) = function F (stOf (name :: tLParen :: ts)) := by
+  rw [primaryExpression.eq_2]
+  pm_eval [hn, eq_self, ↓reduceIte]
+
+theorem letP_complete (rest : List Token) (body : PTree) (hb : Reach false body) (hwb : wp false body = true)
+    (hr : Follow lvlLet rest) :
+    ∀ (bs : List (Token × PTree)), bs ≠ [] → (∀ kv ∈ bs, Reach false kv.2) →
+      (∀ kv ∈ bs, isVarTok kv.1 = true ∧ wp false kv.2 = true) → ∀ ps,
+      ∃ f, letP f (assocOf ps) (stOf (flatKVs tAssign bs ++ tIn :: flat false body ++ rest)) =
+        .ok (.defineVariables (assocOf (ps ++ eraseKVs Token.value bs)) (erase body), stOf rest)
+  | [], h, _, _, _ => absurd rfl h
+  | [(k, e)], _, hR, hw, ps => by
+    have hRe : Reach false e := hR (k, e) (by simp)
+    have hwe : wp false e = true := (hw (k, e) (by simp)).2
+    obtain ⟨f, hf⟩ := hRe.elem hwe (t := tIn) (flat false body ++ rest) rfl (by decide)
+    have hr' : Follow (min 1 (rlevel body)) rest := by
+      refine ⟨?_, hr.2⟩
+      have h1 := hr.1
+      have : precedence (stOf rest).curr.type = 0 := by
+        generalize (stOf rest).curr.type = t at h1
+        cases t <;> simp [precedence, lvlLet] at h1 ⊢
+      omega
+    obtain ⟨g, hg⟩ := hb.operand (p := 1) (by have := llevel_ge _ _ hwb; omega) hr'
+    have hk : k.type = .variable := by simpa [isVarTok] using (hw (k, e) (by simp)).1
+    refine ⟨max f g + 1, ?_⟩
+    rw [letP.eq_2]
+    have hf' := expression_mono (Nat.le_max_left f g) hf
+    have hg' := expression_mono (Nat.le_max_right f g) hg
+    pm_eval [flatKVs, eraseKVs, hf', hg', hk, assocOf_snoc]
+  | (k, e) :: kv :: kvs, _, hR, hw, ps => by
+    have hRe : Reach false e := hR (k, e) (by simp)
+    have hwe : wp false e = true := (hw (k, e) (by simp)).2
+    obtain ⟨f, hf⟩ := hRe.elem hwe (t := tComma)
+      (flatKVs tAssign (kv :: kvs) ++ tIn :: (flat false body ++ rest)) rfl (by decide)
+    obtain ⟨g, hg⟩ := letP_complete rest body hb hwb hr (kv :: kvs) (by simp) (fun x hx => hR x (by simp [hx]))
+      (fun x hx => hw x (by simp [hx])) (ps ++ [(k.value, erase e)])
+    have hk : k.type = .variable := by simpa [isVarTok] using (hw (k, e) (by simp)).1
+    refine ⟨max f g + 1, ?_⟩
+    rw [letP.eq_2, flatKVs_cons2]
+    have hf' := expression_mono (Nat.le_max_left f g) hf
+    have hg' := ((mono_le (Nat.le_max_right f g)).letp _).ok hg
+    rw [assocOf_snoc] at hg'
+    pm_eval [hf', hk]
+    simp only [eraseKVs, List.append_assoc, List.singleton_append, List.cons_append, List.nil_append] at hg' ⊢
+    exact hg'
+
+
+/-! ## Leading forms, read by `primaryExpression` -/
+
+theorem prim_multiHash {F : Nat} {ts : List Token} :
+    primaryExpression (F + 1) (stOf (tLBrace :: ts)) = selectObject F none (stOf ts) := by
+  rw [primaryExpression.eq_2]
+  pm_eval []
+
+theorem prim_multiList {F : Nat} {ts : List Token} (h1 : (stOf ts).curr.type ≠ .integerLiteral)
+    (h2 : (stOf ts).curr.type ≠ .colon) :
+    primaryExpression (F + 1) (stOf (tLBracket :: ts)) = selectArray F none (stOf ts) := by
+  rw [primaryExpression.eq_2]
+  pm_eval [h1, h2, Bool.or_self, Bool.or_eq_true, or_self]
+
+theorem prim_star0 {F : Nat} {ts1 ts2 : List Token} {o : Option INode}
+    (hr : projection F projectionPrecedence (stOf ts1) = .ok (o, stOf ts2)) :
+    primaryExpression (F + 1) (stOf (tArrayStar :: ts1)) = .ok (starNode none o, stOf ts2) := by
+  rw [primaryExpression.eq_2]
+  pm_eval [hr]
+  cases o <;> rfl
+
+theorem prim_ostar0 {F : Nat} {ts1 ts2 : List Token} {o : Option INode}
+    (hr : projection F projectionPrecedence (stOf ts1) = .ok (o, stOf ts2)) :
+    primaryExpression (F + 1) (stOf (tStar :: ts1)) = .ok (ostarNode none o, stOf ts2) := by
+  rw [primaryExpression.eq_2]
+  pm_eval [hr]
+  cases o <;> rfl
+
+theorem prim_flat0 {F : Nat} {ts1 ts2 : List Token} {o : Option INode}
+    (hr : projection F projectionPrecedence (stOf ts1) = .ok (o, stOf ts2)) :
+    primaryExpression (F + 1) (stOf (tFlatten :: ts1)) = .ok (flatNode none o, stOf ts2) := by
+  rw [primaryExpression.eq_2]
+  pm_eval [hr]
+  cases o <;> rfl
+
+theorem prim_filt0 {F : Nat} {c : INode} {ts1 ts2 ts3 : List Token} {o : Option INode}
+    (hc : filterP F (stOf ts1) = .ok (c, stOf ts2))
+    (hr : projection F projectionPrecedence (stOf ts2) = .ok (o, stOf ts3)) :
+    primaryExpression (F + 1) (stOf (tFilter :: ts1)) = .ok (filtNode none c o, stOf ts3) := by
+  rw [primaryExpression.eq_2]
+  pm_eval [hc, hr]
+  cases o <;> rfl
+
+theorem prim_index0 {F : Nat} {n : Token} {i : Int} (hn : n.type = .integerLiteral)
+    (hi : parseInt64 n.value = some i) {rest : List Token} :
+    primaryExpression (F + 1) (stOf (tLBracket :: n :: tRBracket :: rest)) = .ok (indexNode none i, stOf rest) := by
+  rw [primaryExpression.eq_2]
+  pm_eval [hn, Bool.true_or]
+  rw [indexP_index none hn hi rest]
+  rfl
+
+theorem sliceToks_head {a b : Option Token} {c : Option (Option Token)} (h : sliceOK a b c = true)
+    (rest : List Token) :
+    (stOf (sliceToks a b c ++ rest)).curr.type = .integerLiteral ∨
+      (stOf (sliceToks a b c ++ rest)).curr.type = .colon := by
+  cases a with
+  | none => right; rfl
+  | some a =>
+    left
+    simp only [sliceOK, optIntTok, Bool.and_eq_true, isIntTok_iff] at h
+    exact h.1.1.1
+
+theorem prim_slice0 {F : Nat} {a b : Option Token} {c : Option (Option Token)}
+    (h : sliceOK a b c = true) {ts1 ts2 : List Token} {o : Option INode}
+    (hr : projection F projectionPrecedence (stOf ts1) = .ok (o, stOf ts2)) :
+    primaryExpression (F + 1) (stOf (tLBracket :: (sliceToks a b c ++ tRBracket :: ts1))) =
+      .ok (.projectArray (sliceNode none (a.bind intOf) (b.bind intOf) (c.bind fun s => s.bind intOf))
+        (o.getD .current), stOf ts2) := by
+  rw [primaryExpression.eq_2]
+  have hh : ((stOf (sliceToks a b c ++ tRBracket :: ts1)).curr.type == TokenType.integerLiteral ||
+      (stOf (sliceToks a b c ++ tRBracket :: ts1)).curr.type == TokenType.colon) = true := by
+    rcases sliceToks_head h (tRBracket :: ts1) with h' | h' <;> simp [h']
+  rw [bind_ok (get_run _)]
+  simp only [stOf_curr, tLBracket_type]
+  rw [bind_ok (advance_stOf _ _), bind_ok (currType_run _), if_pos hh, bind_ok (indexP_slice none h ts1)]
+  pm_eval [hr]
+
+/-! ## The first selector of a right-hand side, read by `projection` -/
+
+theorem proj_none {F p : Nat} {s : PState} (h : precedence s.curr.type ≤ lvlProj) :
+    projection (F + 1) p s = .ok (none, s) := by
+  rw [projection.eq_2, bind_ok (get_run _)]
+  cases ht : s.curr.type <;> rw [ht] at h <;> simp [precedence, lvlProj] at h <;> rfl
+
+theorem proj_dotStarList {F p : Nat} {ts : List Token} {n : INode} {s' : PState}
+    (hk : exprLoop F (.selectArraySingleCurrent .objectValuesCurrent) p (stOf ts) = .ok (n, s')) :
+    projection (F + 1) p (stOf (tDot :: tArrayStar :: ts)) = .ok (some n, s') := by
+  rw [projection.eq_2]
+  pm_eval [hk]
+
+theorem proj_dotHash {F p : Nat} {ts1 ts2 : List Token} {m n : INode} {s' : PState}
+    (hm : selectObject F none (stOf ts1) = .ok (m, stOf ts2)) (hk : exprLoop F m p (stOf ts2) = .ok (n, s')) :
+    projection (F + 1) p (stOf (tDot :: tLBrace :: ts1)) = .ok (some n, s') := by
+  rw [projection.eq_2]
+  pm_eval [hm, hk]
+
+theorem proj_dotList {F p : Nat} {ts1 ts2 : List Token} {m n : INode} {s' : PState}
+    (hm : selectArray F none (stOf ts1) = .ok (m, stOf ts2)) (hk : exprLoop F m p (stOf ts2) = .ok (n, s')) :
+    projection (F + 1) p (stOf (tDot :: tLBracket :: ts1)) = .ok (some n, s') := by
+  rw [projection.eq_2]
+  pm_eval [hm, hk]
+
+theorem proj_dotId {F p : Nat} {t : Token} (ht : t.type = .unquotedIdentifier ∨ t.type = .quotedIdentifier)
+    {ts : List Token} {n : INode} {s' : PState} (hk : expression F p (stOf (t :: ts)) = .ok (n, s')) :
+    projection (F + 1) p (stOf (tDot :: t :: ts)) = .ok (some n, s') := by
+  rw [projection.eq_2]
+  rcases ht with ht | ht <;> pm_eval [ht, hk]
+
+theorem proj_prim {F p : Nat} {ts ts2 : List Token}
+    (ht : (stOf ts).curr.type = .arrayWildcard ∨ (stOf ts).curr.type = .filter) {m n : INode} {s' : PState}
+    (hm : primaryExpression F (stOf ts) = .ok (m, stOf ts2)) (hk : exprLoop F m p (stOf ts2) = .ok (n, s')) :
+    projection (F + 1) p (stOf ts) = .ok (some n, s') := by
+  rw [projection.eq_2]
+  rcases ht with ht | ht <;> pm_eval [ht, hm, hk]
+
+theorem proj_ostar {F p : Nat} {ts1 ts2 : List Token} {o : Option INode} {n : INode} {s' : PState}
+    (hr : projection F projectionPrecedence (stOf ts1) = .ok (o, stOf ts2))
+    (hk : exprLoop F (ostarNode none o) p (stOf ts2) = .ok (n, s')) :
+    projection (F + 1) p (stOf (tDotStar :: ts1)) = .ok (some n, s') := by
+  rw [projection.eq_2]
+  pm_eval [hr]
+  cases o <;> pm_eval [ostarNode, hk] <;> simp only [ostarNode] at hk <;> pm_eval [hk]
+
+theorem proj_index {F p : Nat} {nt : Token} {i : Int} (hn : nt.type = .integerLiteral)
+    (hi : parseInt64 nt.value = some i) {rest : List Token} {n : INode} {s' : PState}
+    (hk : exprLoop F (indexNode none i) p (stOf rest) = .ok (n, s')) :
+    projection (F + 1) p (stOf (tLBracket :: nt :: tRBracket :: rest)) = .ok (some n, s') := by
+  rw [projection.eq_2]
+  pm_eval []
+  rw [indexP_index none hn hi rest]
+  pm_eval [hk]
+
+theorem proj_slice {F p : Nat} {a b : Option Token} {c : Option (Option Token)}
+    (h : sliceOK a b c = true) {ts1 ts2 : List Token} {o : Option INode} {n : INode} {s' : PState}
+    (hr : projection F projectionPrecedence (stOf ts1) = .ok (o, stOf ts2))
+    (hk : exprLoop F (.projectArray (sliceNode none (a.bind intOf) (b.bind intOf) (c.bind fun s => s.bind intOf))
+        (o.getD .current)) p (stOf ts2) = .ok (n, s')) :
+    projection (F + 1) p (stOf (tLBracket :: (sliceToks a b c ++ tRBracket :: ts1))) = .ok (some n, s') := by
+  rw [projection.eq_2]
+  pm_eval []
+  rw [indexP_slice none h ts1]
+  pm_eval [hr, hk]
+
 
 end Jmes.GrammarF0
